@@ -17,7 +17,7 @@ pub const C33: Check = Check {
     rule: "in-process server stepping with histories of successful and failed runs (forced retryable / fatal outcome at the \
            run's entry via fault hook; natural mid-run failures are driven by the C23/C41 world legs). Around every failed \
            run the harness records at the real listeners: RTR reset answer (state + full set), RTR serial-query answer, \
-           GET /json body + ETag + Last-Modified, /json-delta reset and delta documents, /json-delta/notify of a parked \
+           GET /json body + ETag + Last-Modified, /json-delta reset and delta documents, the RTR and /json-delta answers for every serial the history retains a change set for (and one older), /json-delta/notify of a parked \
            subscriber. Oracle: all of them are byte-/set-identical before and after the failed run, the subscriber did \
            not fire, and serial/session are unchanged. distinct = (failure kind, position in history, data-changed-by-\
            the-would-be-run) classes",
@@ -41,6 +41,8 @@ struct Served {
     delta_reset: Vec<u8>,
     delta_doc: Vec<u8>,
     status: Value,
+    /// answers for every retained serial (RTR serial query and /json-delta)
+    window: Vec<String>,
 }
 
 fn observe(srv: &TestServer, crt: &tokio::runtime::Runtime, from: u32) -> Result<Served, String> {
@@ -51,6 +53,16 @@ fn observe(srv: &TestServer, crt: &tokio::runtime::Runtime, from: u32) -> Result
         v.sort(); v.join(";")
     };
     let serial = rtr_query(crt, srv.rtr_addr, Some(State::from_parts(rtr_session, from.into())), Duration::from_secs(10))?;
+    // every serial the history still holds a change set for (and one older) must keep getting the same answer
+    let retained = srv.history.verif_retained() as u32;
+    let cur: u32 = srv.history.read().serial().into();
+    let mut window: Vec<String> = Vec::new();
+    for back in 1..=retained + 1 {
+        let f = cur.wrapping_sub(back);
+        let a = rtr_query(crt, srv.rtr_addr, Some(State::from_parts(rtr_session, f.into())), Duration::from_secs(10))?;
+        let d = http_get(srv.http_addr, &format!("/json-delta?session={session}&serial={f}"))?;
+        window.push(format!("{f}: rtr {} | http {}", a.map(|a| format!("{}:{}:{}", a.reset, a.state.serial(), fmt(&a.items))).unwrap_or_else(|| "refused".into()), String::from_utf8_lossy(&d.body)));
+    }
     let j = http_get(srv.http_addr, "/json")?;
     let d1 = http_get(srv.http_addr, "/json-delta")?;
     let d2 = http_get(srv.http_addr, &format!("/json-delta?session={session}&serial={from}"))?;
@@ -63,7 +75,7 @@ fn observe(srv: &TestServer, crt: &tokio::runtime::Runtime, from: u32) -> Result
         rtr_set: Some(fmt(&reset.items)),
         rtr_delta: serial.map(|a| format!("{}:{}:{}", a.reset, a.state.serial(), fmt(&a.items))),
         json_body: j.body.clone(), etag: j.header("etag").map(String::from), last_modified: j.header("last-modified").map(String::from),
-        delta_reset: d1.body, delta_doc: d2.body, status,
+        delta_reset: d1.body, delta_doc: d2.body, status, window,
     })
 }
 
@@ -126,6 +138,7 @@ fn run_c33(ctx: &mut Ctx, rep: &mut Report) {
             if before.delta_reset != after.delta_reset { diffs.push("json-delta-reset") }
             if before.delta_doc != after.delta_doc { diffs.push("json-delta-delta") }
             if before.status != after.status { diffs.push("status-serial/done") }
+            if before.window != after.window { diffs.push("answers-for-retained-serials") }
             rep.violation(format!("C33/served-data-changed/{}", diffs.join("+")),
                 format!("a failed run changed what is served: {:?} (ETag {:?} -> {:?}, Last-Modified {:?} -> {:?})",
                     diffs, before.etag, after.etag, before.last_modified, after.last_modified), replay.clone());
